@@ -52,8 +52,15 @@ func (s *synchronizer) sync(_ context.Context, res Response) (Response, bool, er
 
 	s.cycle.counter++
 
-	if !res.Ack {
-		s.cycle.res.Ack = false
+	// A single-node store acknowledges a command when any of its channels does (the
+	// storage iterator ORs its per-channel results), so the cluster-wide acknowledgement
+	// is the disjunction over the participating nodes. The merged response - not
+	// whichever response happened to arrive last - is what the caller must see.
+	if res.Ack {
+		s.cycle.res.Ack = true
+	}
+	if res.Error != nil && s.cycle.res.Error == nil {
+		s.cycle.res.Error = res.Error
 	}
 
 	fulfilled := s.cycle.counter == s.nodeCount
@@ -61,5 +68,5 @@ func (s *synchronizer) sync(_ context.Context, res Response) (Response, bool, er
 		s.cycle.counter = 0
 	}
 
-	return res, fulfilled, nil
+	return s.cycle.res, fulfilled, nil
 }
